@@ -59,6 +59,18 @@ check("C05",
 QRY_NOTE = ("Trusts TLC and the projections of harness/decquery.py; the unfolding is judged against the tables the parser "
             "itself reports through list_decay_modes / build_decay_chains(stable = all daughters), so a table-reading defect "
             "is left to C01; inputs are acyclic table sets (TLC re-checks acyclicity of every case).")
+check("C08",
+      "TLA+ heap model of a parser instance over time (spec/DecSession.tla) model-checked with TLC for four sharing designs; "
+      "TLC-generated histories replayed on one real instance and the recorded event traces validated by TLC (trace mode)",
+      "TLC shows QueryPure / PokeFrame / NoSharing hold for the design with independent derived tables and fresh return values and "
+      "refutes the three sharing designs (copy shares lines, conjugation in place, query returns internal object). Histories over "
+      "19 queries, in-place vandalism of returned values, white-box pokes of one table and re-parse (transition cover, all "
+      "sequences to a bound, random walks of length 10) are replayed on one real instance over 4 files; after every step each "
+      "table's answers are classified against a freshly parsed instance and TLC validates the event trace against the spec's "
+      "actions; copy = source but for the mother and node-identity disjointness are checked on the fresh instance.",
+      "Trusts TLC and harness/c08.py; poke and identity comparison use the private attribute _parsed_decays (skipped with a note "
+      "if a refactoring removes it); 'fresh instance' is the oracle the property itself names.",
+      "DESIGN.md section 5, C08")
 check("C09",
       "TLA+ recursive unfolding operator ChainEntries (spec/DecParse.tla) with TLC-checked lemmas; chains recorded from the real "
       "build_decay_chains validated by TLC (spec/DecQuery.tla JudgeC09)",
